@@ -21,14 +21,14 @@ def run(ctx):
             else:
                 ctx.cov.setdefault('correspondence', {})['dist'] = {'model': 'dist', 'cases': int(m.group(1)), 'mismatches': int(m.group(2))}
                 if int(m.group(2)): ctx.broken.append('correspondence dist: the real dist_or_local_compile reacts differently from distDecide / the exit-status mapping on %s cases: %s' % (m.group(2), out[:500].replace('\n', ' ')))
-            ctx.evaluations += s['cases']; ctx.distinct_nontrivial += s['cases']; ctx.samples += s['samples'][:2]; ctx.cov['fault_cases'] = s['cases']; ctx.cov['exhaustive'] = True
+            ctx.evaluations += s['cases'] + s.get('history_steps', 0); ctx.distinct_nontrivial += s['cases'] + s.get('history_steps', 0); ctx.cov['history_steps'] = s.get('history_steps', 0); ctx.samples += s['samples'][:2]; ctx.cov['fault_cases'] = s['cases']; ctx.cov['exhaustive'] = True
             monitor_failures(ctx, s['monitor_failures'], findings, 'h_dist monitor', rp)
     if cargo_repo_bins(ctx, ('sccache', 'sccache-dist')):
         res = sys_c13.run(os.path.join(ctx.work, 'sys'), 'c13')
         ctx.evaluations += res['requests']; ctx.samples += res['samples'][:1]; ctx.cov['system_requests'] = res['requests']
         monitor_failures(ctx, res['fails'], findings, 'system dist monitor', rp)
     ctx.rules.append('h_dist: one case per (stage x error class) of the scripted dist::Client — toolchain put {other, 4xx, too large}, alloc {no capacity, error, 4xx}, submit {job unknown, cannot cache, error}, '
-                     'run {error, 4xx, job unknown, exit 1/2/42/127/255}, output write {first, second unwritable} — exhaustive over the model alphabet; system: scheduler down, real scheduler without build servers, wrong token')
+                     'run {error, 4xx, job unknown, exit 1/2/42/127/255}, output write {first, second unwritable} — exhaustive over the model alphabet; system: scheduler down, real scheduler without build servers, wrong token; h_dist phase 2: a 9-step history (failing request twice, repair, repeat, result entries removed while preprocessor entries stay, header edit, repeat, break again twice) against a real disk cache in preprocessor-cache mode with a build server that records the unit it is handed')
     ctx.assumptions += ['an emulated build server (scripted dist::Client) stands in for a real one']
     ctx.notes.append('cannot run here: a real build server (needs bubblewrap or docker): toolchain packaging via ldd, the overlay sandbox and HTTPS are not exercised end to end; the remote argument vector (distArgs) is not modelled yet — partial')
 
